@@ -281,3 +281,77 @@ class LineCover:
                     lines -= {ln for (_s, _e, ln) in k.co_lines() if ln is not None}
             out[c.co_qualname] = sorted(lines - seen)
         return out
+
+
+# ------------------------------------------------------------------------------------------ results must not share mutable state
+
+def mutate_everywhere(r, tag='ZZ'):
+    """edit an annotation in place at every container level: every global / terminal list, every residue list, every
+    interval (bounds, flag, list), the dict itself, the interval list itself, the Mod objects, charge and sequence"""
+    _, Interval, Mod = _types()
+    for name in ('_isotope_mods', '_static_mods', '_labile_mods', '_unknown_mods', '_nterm_mods', '_cterm_mods',
+                 '_charge_adducts'):
+        lst = getattr(r, name)
+        if lst is not None:
+            if lst:
+                lst[0].mult += 5
+                lst[0].val = tag + str(lst[0].val)
+            lst.append(Mod(tag, 3))
+    if r._internal_mods is not None:
+        for k in list(r._internal_mods):
+            lst = r._internal_mods[k]
+            if lst:
+                lst[0].mult += 5
+            lst.append(Mod(tag, 3))
+        r._internal_mods[len(r._sequence) + 7] = [Mod(tag, 1)]
+    if r._intervals is not None:
+        for iv in r._intervals:
+            iv.start += 1
+            iv.end += 2
+            iv.ambiguous = not iv.ambiguous
+            if iv.mods is not None:
+                if iv.mods:
+                    iv.mods[0].mult += 5
+                iv.mods.append(Mod(tag, 3))
+        r._intervals.append(Interval(0, 1, False, [Mod(tag, 1)]))
+    r._charge = 9
+    r._sequence = r._sequence + 'W'
+
+
+def sharing_failure(d, produce, label):
+    """`produce(source)` -> list of result annotations. After editing one result in place at every container level the
+    source, the sibling results and a repeated call must be unchanged; likewise the results after editing the source"""
+    src = annot.undump(d)
+    before = annot.dump(src, sort_internal=False)
+    results = list(produce(src))
+    if annot.dump(src, sort_internal=False) != before:
+        return f'{label}: the call changed its argument'
+    dumps = [annot.dump(x, sort_internal=False) for x in results]
+    if not results:
+        return None
+    picks = sorted({0, len(results) - 1, len(results) // 2})
+    for idx in picks:
+        res = list(produce(src))
+        base = [annot.dump(x, sort_internal=False) for x in res]
+        if base != dumps:
+            return f'{label}: a repeated call gives different results'
+        if any(res[i] is res[j] for i in range(len(res)) for j in range(i)):
+            return f'{label}: the same object is returned twice'
+        if any(x is src for x in res):
+            return f'{label}: the argument itself is returned'
+        mutate_everywhere(res[idx])
+        if annot.dump(src, sort_internal=False) != before:
+            return (f'{label}: editing result {idx} in place changed the source: {annot.dump(src, sort_internal=False)} '
+                    f'(was {before})')
+        for j, x in enumerate(res):
+            if j != idx and annot.dump(x, sort_internal=False) != dumps[j]:
+                return f'{label}: editing result {idx} in place changed sibling result {j}: {annot.dump(x)} (was {dumps[j]})'
+        again = [annot.dump(x, sort_internal=False) for x in produce(src)]
+        if again != dumps:
+            return f'{label}: after editing result {idx} in place a repeated call gives {again[:2]} instead of {dumps[:2]}'
+    res = list(produce(src))
+    mutate_everywhere(src, tag='SRC')
+    now = [annot.dump(x, sort_internal=False) for x in res]
+    if now != dumps:
+        return f'{label}: editing the source in place changed results already returned'
+    return None
